@@ -65,6 +65,7 @@ def analyze(c, twin=False, extra_pre=(), seed=0):
     """Run CrossHair over claim c.  Returns a dict (status, paths, confirmed, cex, ...)."""
     ext.install()
     ext.force_ieee_floats(not c.real_floats)
+    ext.exact_int_div(getattr(c, 'exact_int_div', False))
     c.install_params()
     sig = c.sig()
     fn = c.fn
